@@ -62,6 +62,26 @@ End Oracle.
 Definition oracle (info : N -> option cinfo) (obs0 : obs) (steps : list sstep) : bool :=
   all_steps (oracle_step info) obs0 steps.
 
+(** When the underlying agent misbehaves (a failure reply, a malformed or
+    oversized answer, a closed connection at any request), an operation may
+    fail; but whatever listing IS returned holds no certificate outside its
+    window, and a signature is made only with a certificate inside its window
+    - with one exception the code makes on purpose: a certificate that was an
+    in-memory hardware certificate when the operation started (removing such a
+    certificate ignores the agent's answer, which is normally "not found"). *)
+Definition oracle_step_any (info : N -> option cinfo) (pre : obs) (st : sstep) : bool :=
+  if o_locked pre then true
+  else
+    match s_op st, s_reply st with
+    | List_, RList l => forallb (spec_valid info (s_now st)) l
+    | Signers, RSigners l => forallb (fun b => spec_valid info (s_now st) b || mem_b b (o_mem pre)) l
+    | Sign key _ _, RSig _ _ _ => spec_valid info (s_now st) key || mem_b key (o_mem pre)
+    | _, _ => true
+    end.
+
+Definition oracle_any (info : N -> option cinfo) (obs0 : obs) (steps : list sstep) : bool :=
+  all_steps (oracle_step_any info) obs0 steps.
+
 Definition check (c : case) : N :=
   match c with
   | CHist tbl nu ids0 scr built obs0 steps =>
@@ -69,7 +89,10 @@ Definition check (c : case) : N :=
       | [] =>
           if negb (oracle (info_of tbl) obs0 steps) then 2
           else if agree_hist tbl nu ids0 scr built obs0 steps then 0 else 1
-      | _ => 3   (* C07 is about fault-free histories *)
+      | _ =>
+          (* a misbehaving agent: only what must hold under every fault *)
+          if negb (oracle_any (info_of tbl) obs0 steps) then 2
+          else if agree_hist tbl nu ids0 scr built obs0 steps then 0 else 1
       end
   | CValid va vb now res =>
       if negb (Bool.eqb res (spec_window va vb now)) then 2
